@@ -181,8 +181,8 @@ Lemma partS_mm512_mask_add_ps :
   instr_ok_when R o lane_any instr_mm512_mask_add_ps (BCmp CLe (IVar "N") (ILit 30)).
 Proof. solve_instr instr_mm512_mask_add_ps. Qed.
 
-Lemma partS_avx2_mask_storeu_ps :
-  instr_ok_when R o lane_any instr_avx2_mask_storeu_ps (BCmp CEq (IVar "N") (ILit 8)).
+(* repaired in /repo (fix: avx2_mask_storeu_ps must store the first N lanes): full strength, every N <= 8 *)
+Lemma okS_avx2_mask_storeu_ps : instr_ok R o lane_any instr_avx2_mask_storeu_ps.
 Proof. solve_instr instr_avx2_mask_storeu_ps. Qed.
 
 Lemma partS_mm512_maskz_loadu_ps : instr_ok_prefix R o lane_any instr_mm512_maskz_loadu_ps "dst" "N".
@@ -353,9 +353,8 @@ Lemma partial_mm512_mask_add_ps : forall R (o : ROps R), ring_ok o ->
   instr_ok_when R o lane_any instr_mm512_mask_add_ps (BCmp CLe (IVar "N") (ILit 30)).
 Proof. lift partS_mm512_mask_add_ps. Qed.
 
-Lemma partial_avx2_mask_storeu_ps : forall R (o : ROps R), ring_ok o ->
-  instr_ok_when R o lane_any instr_avx2_mask_storeu_ps (BCmp CEq (IVar "N") (ILit 8)).
-Proof. lift partS_avx2_mask_storeu_ps. Qed.
+Lemma ok_avx2_mask_storeu_ps : forall R (o : ROps R), ring_ok o -> instr_ok R o lane_any instr_avx2_mask_storeu_ps.
+Proof. lift okS_avx2_mask_storeu_ps. Qed.
 
 Lemma partial_mm512_maskz_loadu_ps : forall R (o : ROps R), ring_ok o ->
   instr_ok_prefix R o lane_any instr_mm512_maskz_loadu_ps "dst" "N".
